@@ -15,6 +15,7 @@ import (
 
 	"github.com/cloudflare/circl/internal/verifmc"
 	kit "github.com/cloudflare/circl/internal/verifref/c02kit"
+	"github.com/cloudflare/circl/internal/verifref/eddsa"
 	"github.com/cloudflare/circl/sign"
 	"github.com/cloudflare/circl/sign/ed25519"
 	"github.com/cloudflare/circl/sign/ed448"
@@ -47,7 +48,8 @@ func c02Ed25519Subjects(r *verifmc.Run) []*kit.Subject {
 		vf func(pk ed25519.PublicKey, msg, sig []byte, ctx string) bool) *kit.Subject {
 		return &kit.Subject{Name: name, SeedSize: ed25519.SeedSize, PKSize: ed25519.PublicKeySize, SigSize: ed25519.SignatureSize,
 			Deterministic: true, Contexts: ctxs, BadContexts: bad, Derive: derive, EncodePK: enc, DecodePK: dec,
-			Scalars: []kit.Scalar{{Off: 32, Len: 32, Order: c02L25519}},
+			Scalars:  []kit.Scalar{{Off: 32, Len: 32, Order: c02L25519}},
+			WrapSign: map[string]func(seed, msg []byte, ctx string) []byte{"Ed25519ph": c02WrapSigner(eddsa.Ed25519ph), "Ed25519ctx": c02WrapSigner(eddsa.Ed25519ctx)}[name],
 			Sign: func(sk interface{}, msg []byte, ctx string) ([]byte, error) {
 				a := sg(sk.(ed25519.PrivateKey), msg, ctx)
 				// the crypto.Signer entry point must give the same bytes
@@ -92,7 +94,8 @@ func c02Ed448Subjects(r *verifmc.Run) []*kit.Subject {
 		vf func(pk ed448.PublicKey, msg, sig []byte, ctx string) bool) *kit.Subject {
 		return &kit.Subject{Name: name, SeedSize: ed448.SeedSize, PKSize: ed448.PublicKeySize, SigSize: ed448.SignatureSize,
 			Deterministic: true, Contexts: []string{"", "a", c02Ctx255}, BadContexts: []string{c02Ctx256}, Derive: derive, EncodePK: enc, DecodePK: dec,
-			Scalars: []kit.Scalar{{Off: 57, Len: 57, Order: c02L448}},
+			Scalars:  []kit.Scalar{{Off: 57, Len: 57, Order: c02L448}},
+			WrapSign: map[string]func(seed, msg []byte, ctx string) []byte{"Ed448-pure": c02WrapSigner(eddsa.Ed448), "Ed448ph": c02WrapSigner(eddsa.Ed448ph)}[name],
 			Sign: func(sk interface{}, msg []byte, ctx string) ([]byte, error) {
 				a := sg(sk.(ed448.PrivateKey), msg, ctx)
 				b, err := sk.(ed448.PrivateKey).Sign(nil, msg, ed448.SignerOptions{Hash: crypto.Hash(0), Context: ctx, Scheme: id})
@@ -140,6 +143,8 @@ func c02ModesUnit(t *testing.T, unit string, subjects func(r *verifmc.Run) []*ki
 	c02Floors(r, len(fam), true, false, false)
 	if !r.Replaying() {
 		r.RequireCounter("alt_mode", 8)
+		r.RequireCounter("alt_longctx-wrapsigned", 8)
+		r.RequireCounter("wrapsign_bound_to_real_signer", 2)
 		r.RequireCounter("alt_ctx-other", 2)
 		r.RequireCounter("badctx_sign_refused", 2)
 	}
